@@ -170,7 +170,7 @@ func (e *env) violate(class, sig, format string, a ...any) {
 const storeID = "01HVXR1FST0RE0000000000001"
 
 func setup(t *testing.T, sc *gen.Scenario, trace bool, out *harness.Outcome) *env {
-	run := simrt.Begin(simrt.Config{Seed: sc.RunSeed, Mode: int(sc.Knob("delay_mode", 0)), Trace: trace})
+	run := simrt.Begin(simrt.Config{Seed: sc.RunSeed, Mode: int(sc.Knob("delay_mode", 0)), Trace: trace, MaxYield: sc.Knob("max_yield_ns", 2000)})
 	e := &env{run: run, out: out, store: storeID}
 	p, err := freshDB()
 	if err != nil {
@@ -212,6 +212,7 @@ func (e *env) finish(trace bool) {
 	removeDB(e.path)
 	e.out.Digest = e.run.Digest()
 	e.out.Events = e.run.NumEvents()
+	e.out.Yields = e.run.NumYields()
 	e.out.SimTimeNs = int64(e.run.Elapsed())
 	e.out.Probes = e.run.Probes()
 	if trace {
